@@ -182,6 +182,7 @@ namespace bxdecay0 {
                           double thlev_,
                           double & tdlev_)
   {
+    BXDECAY0_VERIF_SCOPE("particle", np_, e1_, e2_, teta1_, teta2_, phi1_, phi2_, tclev_, thlev_);
     double last_time = 0.0;
     if (!event_.get_particles().empty()) {
       const particle & last_part = event_.get_particles().back();
